@@ -1,4 +1,5 @@
 """C45 - every node elects the same owner for a load-balancer address (lib/datastructures/hashring)."""
+import copy
 import os
 
 from vlib import core, pipeline
@@ -78,6 +79,11 @@ def run(ctx):
             break
 
 
+def _fresh(fn):
+    # corruption_selftest hands out shallow copies: never let one corruption leak into the next one
+    return lambda evs: fn(copy.deepcopy(evs))
+
+
 def selftest(ctx):
     P = dict(BASE, design=[], gen=None, n_random=(25, 25))
 
@@ -123,10 +129,10 @@ def selftest(ctx):
         evs.insert(1, {"ev": "lookup", "t": evs[0]["t"], "n": 9, "k": 1, "f": True, "m": 1, "ver": 1})
         return evs
 
-    return pipeline.corruption_selftest(ctx, P, [("drop_remove", drop_remove), ("non_member_owner", non_member_owner),
-                                                 ("stale_value", stale_value),
-                                                 ("history_dependent_owner", history_dependent_owner),
-                                                 ("found_on_empty", found_on_empty)], n_random=25)
+    return pipeline.corruption_selftest(ctx, P, [("drop_remove", _fresh(drop_remove)), ("non_member_owner", _fresh(non_member_owner)),
+                                                 ("stale_value", _fresh(stale_value)),
+                                                 ("history_dependent_owner", _fresh(history_dependent_owner)),
+                                                 ("found_on_empty", _fresh(found_on_empty))], n_random=25)
 
 
 MANIFEST = dict(
